@@ -630,6 +630,27 @@ impl private::StoreCallbacks<AnnotationDataSet> for AnnotationStore {
             }
         }
         self.dataset_annotation_metamap.remove_all(handle);
+        //remove annotations that point at keys or data of this set
+        if let Some(map) = self.key_annotation_metamap.data.get(handle.as_usize()) {
+            let mut annotations: BTreeSet<AnnotationHandle> = BTreeSet::new();
+            annotations.extend(map.data.iter().flatten());
+            for a_handle in annotations {
+                if <AnnotationStore as StoreFor<Annotation>>::has(self, a_handle) {
+                    <AnnotationStore as StoreFor<Annotation>>::remove(self, a_handle)?;
+                }
+            }
+        }
+        self.key_annotation_metamap.remove_all(handle);
+        if let Some(map) = self.data_annotation_metamap.data.get(handle.as_usize()) {
+            let mut annotations: BTreeSet<AnnotationHandle> = BTreeSet::new();
+            annotations.extend(map.data.iter().flatten());
+            for a_handle in annotations {
+                if <AnnotationStore as StoreFor<Annotation>>::has(self, a_handle) {
+                    <AnnotationStore as StoreFor<Annotation>>::remove(self, a_handle)?;
+                }
+            }
+        }
+        self.data_annotation_metamap.remove_all(handle);
         Ok(())
     }
 }
